@@ -23,6 +23,8 @@ pub struct World<K: KeyT, V: ValT> {
     pub gw: usize,
     /// replaying a prefix: execute but do not snapshot / build events
     pub silent: bool,
+    /// rayon in use: the live-table counter is not reliable (worker threads allocate/free asynchronously)
+    pub nolive: bool,
 }
 
 #[derive(Default, Clone, Copy)]
@@ -186,6 +188,7 @@ impl<K: KeyT, V: ValT> World<K, V> {
             content_limit,
             gw: if cfg!(miri) { 8 } else { 16 },
             silent: false,
+            nolive: false,
         }
     }
 
@@ -339,6 +342,9 @@ impl<K: KeyT, V: ValT> World<K, V> {
         e.insert("big".into(), json!(big as u8));
         for (k, v) in extra {
             e.insert(k.into(), v);
+        }
+        if self.nolive {
+            e.insert("par".into(), json!(1));
         }
         e.insert("st".into(), self.snapshot());
         e.insert(
